@@ -12,6 +12,8 @@ fn main() {
 
     // Generic setting
     println!("cargo:rerun-if-changed=build.rs");
+    // `nutype_verif` guards verification hooks; it is never set by a normal build.
+    println!("cargo:rustc-check-cfg=cfg(nutype_verif)");
 
     // feature `error-in-core` landed in rust 1.81.0
     if matches!(version_meta.channel, Channel::Nightly) || version.minor >= 81 {
